@@ -284,6 +284,17 @@ def _fresh_flags(env, cfg):
             env.claim(f"each_observation_stored_once_t{t + 1}", len(now) == len(expected) and all(a is c for a, c in zip(now, expected)))
 
 
+def _attr_snapshot(obj):
+    """configuration of an object: its scalar attributes and the sizes of its containers"""
+    out = {}
+    for k, v in vars(obj).items():
+        if isinstance(v, (bool, int, float, str, type(None))):
+            out[k] = (type(v).__name__, v)
+        elif isinstance(v, (list, dict, set, tuple)):
+            out[k] = ('len', len(v))
+    return out
+
+
 def _given_objects(env, cfg):
     """storage / imputer objects handed to a constructor are used as they are - also when they are still empty (falsy)"""
     from ixai.storage import BatchStorage, IntervalStorage, GeometricReservoirStorage, UniformReservoirStorage
@@ -293,6 +304,32 @@ def _given_objects(env, cfg):
     model, loss = UFModel(env, names), UFLoss(env)
     storages = [IntervalStorage(size=3)] if cls is IntervalSage else \
         [BatchStorage(), IntervalStorage(size=3), GeometricReservoirStorage(size=3), UniformReservoirStorage(size=3)]
+    for prefill in (0, 1):
+        # a storage that already holds an observation and was configured by the user (no targets kept)
+        for st in ([IntervalStorage(size=3, store_targets=False)] if cls is IntervalSage else
+                   [BatchStorage(store_targets=False), IntervalStorage(size=3, store_targets=False)]):
+            for i in range(prefill):
+                st.update({n: float(i) for n in names}, None)
+            imp = DefaultImputer(model, {n: 0 for n in names})
+            snap = (_attr_snapshot(st), _attr_snapshot(imp), list(names))
+            if cls in (IncrementalSage, IncrementalPFI):
+                guarded(env, 'ctor', cls, model, loss, names, storage=st, imputer=imp)
+            else:
+                guarded(env, 'ctor', cls, model, names, loss, storage=st, imputer=imp)
+            env.claim('constructor_does_not_reconfigure_the_given_objects',
+                      snap == (_attr_snapshot(st), _attr_snapshot(imp), list(names)),
+                      detail=f"{type(st).__name__} with {prefill} stored rows: {snap[0]} -> {_attr_snapshot(st)}")
+    # a model given as a Wrapper instance is the user's object: it is used as it is and not modified
+    from ixai.utils.wrappers import SklearnWrapper
+    wrapped = SklearnWrapper(lambda arr: arr[:, 0])
+    wsnap = _attr_snapshot(wrapped)
+    exw = guarded(env, 'ctor', cls, wrapped, loss, names) if cls in (IncrementalSage, IncrementalPFI) else \
+        guarded(env, 'ctor', cls, wrapped, names, loss)
+    env.claim('given_wrapper_is_used_unchanged', exw._model_function is wrapped and _attr_snapshot(wrapped) == wsnap,
+              detail=f"{wsnap} -> {_attr_snapshot(wrapped)}")
+    env.claim('constructor_does_not_evaluate_the_loss', len(loss.calls) == 0,
+              detail='a plain callable loss is only defined on (y_true, prediction dict of the model): probing it with made-up arguments '
+                     'rejects valid losses')
     for st in storages:
         imp = DefaultImputer(model, {n: 0 for n in names})
         if cls in (IncrementalSage, IncrementalPFI):
